@@ -36,6 +36,15 @@ func runC14(c *core.Ctx) {
 	guardedBy(c, lc, el, "C14.register", guardedField{Rel: "bus", Struct: "objectImpl", Field: "properties", Mutex: "propertiesMutex",
 		Reason: "properties are read by any client while the mailbox goroutine or the service writes them"})
 	lockPairing(c, lc, "C14.register", []*ssa.Function{c.Func("bus", "objectImpl", "Property"), c.Func("bus", "objectImpl", "saveProperty"), c.Func("bus", "objectImpl", "Properties")})
+	{
+		var busFns []*ssa.Function
+		for _, fn := range append(c.RepoFuncs("bus"), c.RepoFuncs(core.WitnessDirName)...) {
+			if !c.IsTestFile(fn) {
+				busFns = append(busFns, fn)
+			}
+		}
+		ruleNoLockCopies(c, "C14.register", busFns)
+	}
 	ruleSaveStores(c)
 	c.Doc("C14.serial", "an object's mails are handled one at a time by one goroutine (writes to a property take effect in one order)", 2)
 	ruleMailboxSerial(c, "C14.serial")
@@ -57,6 +66,7 @@ func runC14(c *core.Ctx) {
 			Reason: "registrations are added/removed by the mailbox goroutine, by disconnect closers and read by emitters"})
 		ruleInferredGuards(c, lc13, newEntryLocks(c, lc13), "C13.table")
 		ruleNoStaleElementPointerInBus(c, "C13.table")
+		ruleSignalTable(c)
 	}
 	if a := getEP(c, "C14.anchors"); a != nil {
 		c.Doc("C13.forwarding", "subscribers are forwarded Event messages only, in order, channel closed once", 6)
